@@ -121,7 +121,44 @@ class FullAPIPool(ThreadedPool):
         return self.n
 
 
-SCHEDULES = ["vec", "scalar", "reversed", "permuted", "threads", "fullapi", "int1", "int2"]
+class ExecutorPool:
+    """concurrent.futures-style executor: submit() returns real Futures that complete out of order
+    (injected delays, 4 threads); map() is the ordered Executor.map."""
+
+    def __init__(self, n=4, seed=0):
+        from concurrent.futures import ThreadPoolExecutor
+        self.n = n
+        self.ex = ThreadPoolExecutor(n)
+        self.rng = np.random.default_rng(seed)
+        self.completion = []
+        self._max_workers = n
+
+    def submit(self, f, *a, **k):
+        delay = float(self.rng.random()) * 3e-4
+        idx = len(self.completion) + 0
+
+        def g():
+            time.sleep(delay)
+            r = f(*a, **k)
+            self.completion.append(delay)
+            return r
+        return self.ex.submit(g)
+
+    def map(self, f, *iterables, timeout=None, chunksize=1):
+        futs = [self.submit(f, *args) for args in zip(*iterables)]
+        return [fu.result() for fu in futs]
+
+    def shutdown(self, wait=True, **k):
+        self.ex.shutdown(wait=wait)
+
+    def close(self):
+        self.ex.shutdown(wait=False)
+
+    def __getstate__(self):
+        return {"n": self.n}
+
+
+SCHEDULES = ["vec", "scalar", "reversed", "permuted", "threads", "fullapi", "executor", "int1", "int2"]
 
 
 def one(cfg, schedule, seed):
@@ -136,7 +173,7 @@ def one(cfg, schedule, seed):
         c["pointwise"] = True
     else:
         c["mode"] = "blobs" if blobs else "scalar"
-        pool = {"scalar": None, "reversed": ReversedPool(), "permuted": PermutedPool(seed + 5), "threads": ThreadedPool(4, seed + 7), "fullapi": FullAPIPool(3, seed + 9),
+        pool = {"scalar": None, "reversed": ReversedPool(), "permuted": PermutedPool(seed + 5), "threads": ThreadedPool(4, seed + 7), "fullapi": FullAPIPool(3, seed + 9), "executor": ExecutorPool(4, seed + 11),
                 "int1": 1, "int2": 2}[schedule]
     c["pool"] = pool
     idblob.SHARED = mp.Value("q", 0)
@@ -150,7 +187,7 @@ def one(cfg, schedule, seed):
     except Exception as e:
         return dict(error=f"{type(e).__name__}: {e}", trace=fmt_exc()[-500:])
     finally:
-        if isinstance(pool, ThreadedPool):
+        if isinstance(pool, (ThreadedPool, ExecutorPool)):
             pool.close()
     H = runs.history(s)
     core = {k: H[k] for k in ("u", "x", "logl", "beta", "logz", "ess", "iter", "steps")}
@@ -184,7 +221,7 @@ def run():
     tasks = []
     for ci, cfg in enumerate(cfgs):
         for r in range(nseeds):
-            sch = SCHEDULES if (r == 0 or not ck.quick) else SCHEDULES[:6]
+            sch = SCHEDULES if (r == 0 or not ck.quick) else SCHEDULES[:7]
             tasks.append(("tvf.checks.c13:group", dict(cfg=cfg, seed=ck.subseed("s", ci, r) % 10 ** 6, schedules=sch), None))
     for i, st, val in farm.run(tasks, timeout=1200, jobs=8, progress="C13"):
         kw = tasks[i][1]
@@ -216,7 +253,7 @@ def run():
                 ck.violation("schedule-changes-result", f"same seed, pointwise identical likelihood: schedule {sc} gives logZ {r['logz']!r} / {r['n_iter']} iterations, "
                              f"schedule {ref[0]} gives {ref[1]['logz']!r} / {ref[1]['n_iter']}", dict(cfg=kw["cfg"], seed=kw["seed"], schedule=sc))
     need = ["runs under schedule vec", "runs under schedule scalar", "runs under schedule reversed", "runs under schedule permuted",
-            "runs under schedule threads", "runs under schedule fullapi", "out-of-order completions observed in the thread pool"]
+            "runs under schedule threads", "runs under schedule fullapi", "runs under schedule executor", "out-of-order completions observed in the thread pool"]
     ck.require_events(*need)
     return ck.finish(
         rule="configurations x seeds x evaluation schedules {vectorised (row-by-row identical function), scalar, reversed-order pool object, "
